@@ -54,7 +54,7 @@ Qed.
 
 (** ---- well-formed never-saved trees ---- *)
 Definition fork_ok (k : N) (prefix : list N) : Prop :=
-  prefix <> [] /\ hd 0%N prefix = k /\ length prefix <= 30 /\ (k < 256)%N.
+  prefix <> [] /\ hd 0%N prefix = k /\ length prefix <= 30 /\ (k < 256)%N /\ Forall is_byte prefix.
 
 Definition local_ok (n : node) : Prop :=
   (length (n_okey n) = 0 \/ length (n_okey n) = 32) /\
@@ -144,7 +144,7 @@ Proof.
   destruct p as [|b p]; [reflexivity|].
   cbn [length lk]. unfold forks_get at 1 2. rewrite Hfs.
   destruct (fget fs b) as [[pre c]|] eqn:Hg; [|reflexivity].
-  destruct (Hall b pre c Hg) as [[Hne [Hhd [Hl30 Hb]]] [Hrbs [Hloc Hc]]].
+  destruct (Hall b pre c Hg) as [[Hne [Hhd [Hl30 [Hb Hby]]]] [Hrbs [Hloc Hc]]].
   rewrite common_full_iff.
   destruct pre as [|x pre]; [contradiction|].
   destruct (is_prefix (x :: pre) (b :: p)) eqn:Hp; [|reflexivity].
@@ -223,4 +223,553 @@ Lemma val_of_set_value : forall n e m,
   val_of (set_ref (set_value n e m) None) = Some (e, match m with [] => n_md n | _ => m end).
 Proof.
   intros n e m. unfold set_value, val_of. destruct m; simpl; now autorewrite with flags.
+Qed.
+
+(** ---- Add ---- *)
+Arguments fresh_child : simpl never.
+Arguments upd_pathsep : simpl never.
+Ltac nsimp := cbn [Nat.eqb Nat.ltb Nat.leb andb negb orb].
+
+Lemma add_chk_ok : forall n e, (n_rbs n = 32 \/ n_rbs n = 0) -> length e = 32 -> add_chk n e = (set_rbs n 32, None).
+Proof.
+  intros n e [H|H] He; unfold add_chk; rewrite H, He; nsimp; [|reflexivity].
+  destruct n; simpl in *; subst; reflexivity.
+Qed.
+
+Lemma add_load_loaded : forall st n fs, n_forks n = Some fs -> add_load st n = (n, None).
+Proof. intros st n fs H. unfold add_load. now rewrite H. Qed.
+
+(** what [Add] needs of the node it is called on: as [local_ok], but a node that was just made a
+    value node by an edge split has no entry yet (the path ends there, the entry is set next) *)
+Definition local_pre (n : node) (p : path) : Prop :=
+  (length (n_okey n) = 0 \/ length (n_okey n) = 32) /\
+  (p <> [] -> is_value (n_ty n) = true -> length (n_entry n) = 32) /\
+  (is_value (n_ty n) = false -> n_md n = []) /\
+  (is_withmeta (n_ty n) = true <-> n_md n <> []) /\
+  md_ok (n_md n).
+
+Lemma local_ok_pre : forall n p, local_ok n -> local_pre n p.
+Proof. intros n p [H1 [H2 [H3 [H4 H5]]]]. split; [exact H1 | split; [intros _; exact H2 | split; [exact H3 | split; [exact H4 | exact H5]]]]. Qed.
+
+Lemma local_ok_same : forall n n', local_ok n -> n_okey n' = n_okey n -> is_value (n_ty n') = is_value (n_ty n) ->
+  is_withmeta (n_ty n') = is_withmeta (n_ty n) -> n_entry n' = n_entry n -> n_md n' = n_md n -> local_ok n'.
+Proof. intros n n' H Ho Hv Hw He Hm. unfold local_ok in *. now rewrite Ho, Hv, Hw, He, Hm. Qed.
+
+Lemma local_ok_upd_pathsep : forall n p, local_ok n -> local_ok (upd_pathsep n p).
+Proof.
+  intros n p H. apply (local_ok_same n); auto; [apply upd_pathsep_value | apply upd_pathsep_withmeta].
+Qed.
+
+Lemma pad_to_length : forall n l, length (pad_to n l) = n.
+Proof. intros n l. unfold pad_to. rewrite firstn_length, app_length, repeat_length. lia. Qed.
+
+Lemma fresh_child_props : forall n, (length (n_okey n) = 0 \/ length (n_okey n) = 32) ->
+  n_forks (fresh_child n) = Some [] /\ n_ref (fresh_child n) = None /\ n_ty (fresh_child n) = 0%N /\
+  n_md (fresh_child n) = [] /\ n_entry (fresh_child n) = [] /\ n_rbs (fresh_child n) = n_rbs n /\
+  (length (n_okey (fresh_child n)) = 0 \/ length (n_okey (fresh_child n)) = 32).
+Proof.
+  intros n Hk. unfold fresh_child. destruct (0 <? length (n_okey n)); simpl; repeat split; auto.
+  right. apply pad_to_length.
+Qed.
+
+Lemma den_none_no_forks : forall n, n_forks n = Some [] -> is_value (n_ty n) = false -> forall q, den n q = None.
+Proof.
+  intros n Hf Hv [|b q]; [rewrite den_nil; unfold val_of; now rewrite Hv | now apply den_no_forks].
+Qed.
+
+Lemma tree_ok_no_forks : forall n, n_forks n = Some [] -> n_ref n = None -> tree_ok n.
+Proof. intros n Hf Hr. apply (tree_ok_intro n []); auto; [constructor | intros ? ? ? []]. Qed.
+
+(** denotation after [n.forks[b] = &fork{F, ch}; n.makeEdge()] *)
+Lemma den_edge_put : forall n0 fs b F ch, n_forks n0 = Some fs -> F <> [] ->
+  forall q, den (mk_edge_node (put_fork n0 b (F, ch))) q =
+    match q with
+    | [] => val_of n0
+    | y :: _ => if N.eqb y b then (if is_prefix F q then den ch (skipn (length F) q) else None) else den n0 q
+    end.
+Proof.
+  intros n0 fs b F ch Hfs HF [|y q'].
+  - rewrite den_nil. unfold mk_edge_node, put_fork. rewrite Hfs. unfold val_of. simpl. now autorewrite with flags.
+  - rewrite !den_cons. unfold mk_edge_node.
+    replace (forks_get (set_ty (put_fork n0 b (F, ch)) (mk_edge (n_ty (put_fork n0 b (F, ch))))) y)
+      with (forks_get (put_fork n0 b (F, ch)) y) by reflexivity.
+    rewrite forks_get_put_fork by congruence.
+    destruct (N.eqb y b); [|reflexivity]. destruct F as [|x pre]; [contradiction|]. reflexivity.
+Qed.
+
+Lemma tree_ok_edge_put : forall n0 b F ch, tree_ok n0 -> fork_ok b F -> n_rbs ch = 32 -> local_ok ch -> tree_ok ch ->
+  tree_ok (mk_edge_node (put_fork n0 b (F, ch))).
+Proof.
+  intros n0 b F ch H0 HF Hr Hl Hc. apply (tree_ok_same_forks (put_fork n0 b (F, ch))).
+  - now apply tree_ok_put_fork.
+  - reflexivity.
+  - destruct (tree_ok_inv n0 H0) as [fs [Hfs [Href _]]]. unfold mk_edge_node, put_fork. rewrite Hfs. simpl. exact Href.
+Qed.
+
+Lemma local_ok_edge_put : forall n r b v, local_ok n -> local_ok (mk_edge_node (put_fork (set_rbs n r) b v)).
+Proof.
+  intros n r b v H. apply (local_ok_same n); auto; unfold mk_edge_node, put_fork;
+    destruct (n_forks (set_rbs n r)); simpl; now autorewrite with flags.
+Qed.
+
+Lemma rbs_edge_put : forall n r b v, n_rbs (mk_edge_node (put_fork (set_rbs n r) b v)) = r.
+Proof. intros. unfold mk_edge_node, put_fork. destruct (n_forks (set_rbs n r)); reflexivity. Qed.
+
+Lemma val_of_set_rbs : forall n r, val_of (set_rbs n r) = val_of n.
+Proof. reflexivity. Qed.
+Lemma den_set_rbs : forall n r q, den (set_rbs n r) q = den n q.
+Proof. intros. now apply den_same. Qed.
+
+Lemma Forall_skipn : forall {A} (P : A -> Prop) n l, Forall P l -> Forall P (skipn n l).
+Proof. intros A P n. induction n; intros l H; simpl; [assumption|]. destruct l; [constructor|]. inversion H; auto. Qed.
+Lemma Forall_firstn : forall {A} (P : A -> Prop) n l, Forall P l -> Forall P (firstn n l).
+Proof. intros A P n. induction n; intros l H; simpl; [constructor|]. destruct l; [constructor|]. inversion H; subst. constructor; auto. Qed.
+
+Lemma common_hd_eq : forall b pre p, common (b :: pre) (b :: p) = b :: common pre p.
+Proof. intros. simpl. now rewrite N.eqb_refl. Qed.
+
+Lemma leaf_node_props : forall n1 p e m, (length (n_okey n1) = 0 \/ length (n_okey n1) = 32) -> length e = 32 -> md_ok m ->
+  let lf := leaf_node n1 p e m in
+  tree_ok lf /\ local_ok lf /\ n_rbs lf = n_rbs n1 /\ val_of lf = Some (e, m) /\ n_forks lf = Some [].
+Proof.
+  intros n1 p e m Hk He Hm lf. destruct (fresh_child_props n1 Hk) as [Hf [Hr [Ht [Hmd [Hen [Hrb Hok]]]]]].
+  assert (Hv : is_value (n_ty lf) = true).
+  { subst lf. unfold leaf_node. rewrite upd_pathsep_value. simpl. now autorewrite with flags. }
+  assert (Hfk : n_forks lf = Some []) by (subst lf; unfold leaf_node; destruct (0 <? length m); simpl; exact Hf).
+  assert (Hrf : n_ref lf = None) by (subst lf; unfold leaf_node; destruct (0 <? length m); simpl; exact Hr).
+  assert (Hen' : n_entry lf = e) by (subst lf; unfold leaf_node; destruct (0 <? length m); reflexivity).
+  assert (Hmd' : n_md lf = m) by (subst lf; unfold leaf_node; destruct m; simpl; [exact Hmd | reflexivity]).
+  assert (Hok' : n_okey lf = n_okey (fresh_child n1)) by (subst lf; unfold leaf_node; destruct (0 <? length m); reflexivity).
+  assert (Hrb' : n_rbs lf = n_rbs n1) by (subst lf; unfold leaf_node; destruct (0 <? length m); simpl; exact Hrb).
+  assert (Hwm : is_withmeta (n_ty lf) = true <-> m <> []).
+  { subst lf. unfold leaf_node. rewrite upd_pathsep_withmeta. destruct m; cbn [n_ty set_entry set_ty set_md length Nat.ltb Nat.leb]; autorewrite with flags; rewrite ?Ht.
+    - split; [intros H; vm_compute in H; discriminate H | intros H; contradiction].
+    - split; [intros _ H; discriminate H | reflexivity]. }
+  split; [now apply tree_ok_no_forks|]. split; [|split; [exact Hrb'|split; [|exact Hfk]]].
+  - unfold local_ok. rewrite Hok', Hen', Hmd', Hv.
+    split; [exact Hok | split; [intros _; exact He | split; [intros; discriminate | split; [exact Hwm | exact Hm]]]].
+  - unfold val_of. now rewrite Hv, Hen', Hmd'.
+Qed.
+
+Arguments split_node : simpl never.
+Arguments mk_edge_node : simpl never.
+
+Lemma split_node_props : forall n1 rest c1 full p,
+  (length (n_okey n1) = 0 \/ length (n_okey n1) = 32) ->
+  fork_ok (hd 0%N rest) rest -> n_rbs c1 = 32 -> local_ok c1 -> tree_ok c1 -> (full = true -> p = []) ->
+  let sp := split_node n1 rest c1 full in
+  tree_ok sp /\ local_pre sp p /\ n_rbs sp = n_rbs n1 /\
+  val_of sp = (if full then Some ([], []) else None) /\
+  n_forks sp = Some [(hd 0%N rest, (rest, c1))].
+Proof.
+  intros n1 rest c1 full p Hk Hfk Hr Hl Hc Hfull sp.
+  destruct (fresh_child_props n1 Hk) as [Hf [Hrf [Ht [Hmd [Hen [Hrb Hok]]]]]].
+  assert (Hforks : n_forks sp = Some [(hd 0%N rest, (rest, c1))]) by (unfold sp, split_node, mk_edge_node; destruct full; reflexivity).
+  assert (Href : n_ref sp = None) by (unfold sp, split_node, mk_edge_node; destruct full; exact Hrf).
+  assert (Hmd' : n_md sp = []) by (unfold sp, split_node, mk_edge_node; destruct full; exact Hmd).
+  assert (Hen' : n_entry sp = []) by (unfold sp, split_node, mk_edge_node; destruct full; exact Hen).
+  assert (Hok' : n_okey sp = n_okey (fresh_child n1)) by (unfold sp, split_node, mk_edge_node; destruct full; reflexivity).
+  assert (Hrb' : n_rbs sp = n_rbs n1) by (unfold sp, split_node, mk_edge_node; destruct full; exact Hrb).
+  assert (Hv : is_value (n_ty sp) = full).
+  { unfold sp, split_node, mk_edge_node. destruct full; cbn [n_ty set_ty set_forks]; autorewrite with flags; [reflexivity|].
+    rewrite Ht. reflexivity. }
+  assert (Hw : is_withmeta (n_ty sp) = false).
+  { unfold sp, split_node, mk_edge_node. destruct full; cbn [n_ty set_ty set_forks]; autorewrite with flags; rewrite Ht; reflexivity. }
+  split; [|split; [|split; [exact Hrb'|split; [|exact Hforks]]]].
+  - apply (tree_ok_intro sp _ Hforks Href).
+    + unfold keys_sorted. simpl. constructor; constructor.
+    + intros k pre c [Heq|[]]. inversion Heq; subst k pre c. tauto.
+  - unfold local_pre. rewrite Hok', Hen', Hmd', Hv, Hw.
+    split; [exact Hok | split; [|split; [reflexivity|split; [|apply md_ok_nil]]]].
+    + intros Hp Hf'. apply Hfull in Hf'. contradiction.
+    + split; [intros H; discriminate H | intros H; contradiction].
+  - unfold val_of. rewrite Hv, Hen', Hmd'. reflexivity.
+Qed.
+
+Lemma den_split : forall n1 rest c1 full r0 rest', rest = r0 :: rest' ->
+  forall q, den (split_node n1 rest c1 full) q =
+   match q with
+   | [] => val_of (split_node n1 rest c1 full)
+   | y :: _ => if N.eqb y r0 then (if is_prefix rest q then den c1 (skipn (length rest) q) else None) else None
+   end.
+Proof.
+  intros n1 rest c1 full r0 rest' Hr [|y q']; [apply den_nil|].
+  rewrite den_cons. unfold forks_get.
+  replace (n_forks (split_node n1 rest c1 full)) with (Some [(hd 0%N rest, (rest, c1))])
+    by (unfold split_node, mk_edge_node; destruct full; reflexivity).
+  subst rest. cbn [hd fget]. destruct (N.eqb y r0); reflexivity.
+Qed.
+
+Lemma local_ok_set_value' : forall n e m, local_pre n [] -> length e = 32 -> md_ok m -> local_ok (set_ref (set_value n e m) None).
+Proof.
+  intros n e m [H1 [H2 [H3 [H4 H5]]]] He Hm. unfold set_value.
+  destruct m as [|kv m]; cbn [Nat.ltb Nat.leb length]; unfold local_ok; simpl;
+    (split; [exact H1 | split; [intros _; exact He | split; [|split]]]).
+  - autorewrite with flags. intros; discriminate.
+  - autorewrite with flags. exact H4.
+  - exact H5.
+  - autorewrite with flags. intros; discriminate.
+  - autorewrite with flags. split; intros; [discriminate | reflexivity].
+  - exact Hm.
+Qed.
+
+Lemma list_eqb_N_hd_neq : forall y q b p, N.eqb y b = false -> list_eqb_N (y :: q) (b :: p) = false.
+Proof. intros. simpl. now rewrite H. Qed.
+
+Lemma add_spec : forall f st n p e m,
+  length p < f -> tree_ok n -> local_pre n p -> (n_rbs n = 32 \/ n_rbs n = 0) ->
+  Forall is_byte p -> length e = 32 -> md_ok m ->
+  exists n', add f st n p e m = (n', None) /\ tree_ok n' /\ local_ok n' /\ n_rbs n' = 32 /\
+    forall q, den n' q = if list_eqb_N q p then Some (e, new_md n p m) else den n q.
+Proof.
+  induction f as [|f IH]; intros st n p e m Hlen Hok Hpre Hrbs Hby He Hm; [lia|].
+  destruct (tree_ok_inv n Hok) as [fs [Hfs [Href [Hs Hall]]]].
+  cbn [add]. rewrite add_chk_ok by assumption.
+  destruct p as [|b p].
+  - (* the path ends here *)
+    eexists. split; [reflexivity|]. split; [|split; [|split]].
+    + apply (tree_ok_same_forks n); auto. unfold set_value. destruct (0 <? length m); reflexivity.
+    + apply local_ok_set_value'; auto.
+    + unfold set_value. destruct (0 <? length m); reflexivity.
+    + intros [|y q'].
+      * rewrite den_nil, val_of_set_value. cbn [list_eqb_N]. f_equal. f_equal.
+        unfold new_md. destruct m; [|reflexivity]. unfold old_md. rewrite den_nil. unfold val_of.
+        destruct Hpre as [_ [_ [H3 _]]]. cbn [n_md set_rbs].
+        destruct (is_value (n_ty n)) eqn:Hv; [reflexivity | now apply H3].
+      * cbn [list_eqb_N]. rewrite !den_cons. unfold forks_get.
+        replace (n_forks (set_ref (set_value (set_rbs n 32) e m) None)) with (n_forks n); [reflexivity|].
+        unfold set_value. destruct (0 <? length m); reflexivity.
+  - (* the path goes on *)
+    rewrite (add_load_loaded st _ fs) by exact Hfs.
+    assert (Hloc : local_ok n).
+    { destruct Hpre as [H1 [H2 [H3 [H4 H5]]]].
+      split; [exact H1 | split; [apply H2; discriminate | split; [exact H3 | split; [exact H4 | exact H5]]]]. }
+    assert (Hkey : length (n_okey n) = 0 \/ length (n_okey n) = 32) by apply Hloc.
+    remember (set_rbs n 32) as n0 eqn:Hn0.
+    assert (Hok0 : tree_ok n0) by (subst n0; apply (tree_ok_same_forks n); auto).
+    assert (Hfs0 : n_forks n0 = Some fs) by (subst n0; exact Hfs).
+    assert (Hkey0 : length (n_okey n0) = 0 \/ length (n_okey n0) = 32) by (subst n0; exact Hkey).
+    assert (Hrbs0 : n_rbs n0 = 32) by (subst n0; reflexivity).
+    assert (Hden0 : forall q, den n0 q = den n q) by (intros; subst n0; apply den_set_rbs).
+    assert (Hval0 : val_of n0 = val_of n) by (subst n0; reflexivity).
+    assert (Hlenp : length p < f) by (simpl in Hlen; lia).
+    unfold forks_get at 1. rewrite Hfs0.
+    destruct (fget fs b) as [[prefix c]|] eqn:Hg.
+    + (* a fork for b exists *)
+      destruct (Hall b prefix c Hg) as [[Hne [Hhd [Hl30 [Hb Hpb]]]] [Hcr [Hcl Hct]]].
+      destruct prefix as [|x pre]; [contradiction|]. simpl in Hhd. subst x.
+      remember (common (b :: pre) (b :: p)) as cm eqn:Hcm.
+      assert (Hcm1 : is_prefix cm (b :: pre) = true) by (subst cm; apply common_is_prefix_l).
+      assert (Hcm2 : is_prefix cm (b :: p) = true) by (subst cm; apply common_is_prefix_r).
+      assert (Hcm3 : exists cm', cm = b :: cm') by (subst cm; rewrite common_hd_eq; eauto).
+      assert (Hmax : forall u ru v rv, skipn (length cm) (b :: pre) = u :: ru -> skipn (length cm) (b :: p) = v :: rv -> u <> v)
+        by (subst cm; apply common_maximal).
+      remember (skipn (length cm) (b :: pre)) as rest eqn:Hrest.
+      remember (skipn (length cm) (b :: p)) as p2 eqn:Hp2.
+      assert (Hpre_eq : b :: pre = cm ++ rest) by (subst rest; now apply is_prefix_spec).
+      assert (HP_eq : b :: p = cm ++ p2) by (subst p2; now apply is_prefix_spec).
+      destruct Hcm3 as [cm' Hcm3].
+      assert (Hcmne : cm <> []) by (rewrite Hcm3; discriminate).
+      assert (Hlen2 : length p2 < f).
+      { apply (f_equal (@length N)) in HP_eq. rewrite app_length, Hcm3 in HP_eq. simpl in HP_eq. lia. }
+      assert (Hby2 : Forall is_byte p2) by (subst p2; now apply Forall_skipn).
+      assert (Hcmby : Forall is_byte cm).
+      { rewrite HP_eq in Hby. apply Forall_app in Hby. tauto. }
+      assert (Hfk_cm : fork_ok b cm).
+      { split; [exact Hcmne|]. split; [rewrite Hcm3; reflexivity|]. split; [|split; [exact Hb | exact Hcmby]].
+        apply is_prefix_length in Hcm1. lia. }
+      destruct rest as [|r0 rest'].
+      * (* the whole prefix matches: descend into the child *)
+        assert (Hcme : cm = b :: pre) by (rewrite app_nil_r in Hpre_eq; now symmetry). clear Hcm3 Hpre_eq. rewrite Hcme in *. clear Hcme.
+        destruct (IH st (upd_pathsep c (b :: p)) p2 e m Hlen2) as [nn' [Hadd [Hnt [Hnl [Hnr Hnd]]]]]; auto.
+        { apply (tree_ok_same_forks c); auto. destruct (tree_ok_inv c Hct) as [? [? [? _]]]. assumption. }
+        { apply local_ok_pre. now apply local_ok_upd_pathsep. }
+        rewrite Hadd. eexists. split; [reflexivity|]. split; [|split; [|split]].
+        -- now apply tree_ok_edge_put.
+        -- subst n0. now apply local_ok_edge_put.
+        -- subst n0. apply rbs_edge_put.
+        -- intros q. rewrite (den_edge_put n0 fs b (b :: pre) nn' Hfs0 Hcmne).
+           destruct q as [|y q']; [cbn [list_eqb_N]; rewrite den_nil; exact Hval0|].
+           destruct (N.eqb y b) eqn:Ey.
+           ++ apply N.eqb_eq in Ey. subst y.
+              assert (Hdn : forall q2, is_prefix (b :: pre) (b :: q2) = true ->
+                        den n (b :: q2) = den c (skipn (length (b :: pre)) (b :: q2))).
+              { intros q2 Hq2. rewrite den_cons. unfold forks_get. rewrite Hfs, Hg, Hq2. reflexivity. }
+              destruct (is_prefix (b :: pre) (b :: q')) eqn:Hq.
+              ** rewrite Hnd. rewrite Hp2. rewrite (list_eqb_N_skipn (b :: pre) (b :: q') (b :: p) Hq Hcm2).
+                 destruct (list_eqb_N (b :: q') (b :: p)) eqn:Heq.
+                 --- f_equal. f_equal. unfold new_md. destruct m; [|reflexivity]. unfold old_md.
+                     rewrite den_upd_pathsep. rewrite <- Hp2. rewrite (Hdn p Hcm2). rewrite <- Hp2. reflexivity.
+                 --- rewrite den_upd_pathsep. now rewrite (Hdn q' Hq).
+              ** rewrite (not_prefix_neq (b :: pre) _ _ Hq Hcm2).
+                 rewrite den_cons. unfold forks_get. rewrite Hfs, Hg, Hq. reflexivity.
+           ++ rewrite (list_eqb_N_hd_neq _ _ _ _ Ey). apply Hden0.
+      * (* the edge is split *)
+        assert (Hfull : (length (b :: p) =? length cm) = true -> p2 = []).
+        { intros H. apply Nat.eqb_eq in H. apply (f_equal (@length N)) in HP_eq. rewrite app_length in HP_eq.
+          destruct p2; [reflexivity | simpl in H, HP_eq; lia]. }
+        assert (Hfk_rest : fork_ok (hd 0%N (r0 :: rest')) (r0 :: rest')).
+        { rewrite Hpre_eq in Hpb, Hl30. apply Forall_app in Hpb as [_ Hpb]. rewrite app_length in Hl30.
+          split; [discriminate|]. split; [reflexivity|]. split; [lia|]. split; [|exact Hpb].
+          inversion Hpb; assumption. }
+        destruct (split_node_props n0 (r0 :: rest') (upd_pathsep c (r0 :: rest')) (length (b :: p) =? length cm) p2
+                    Hkey0 Hfk_rest) as [Hst [Hsl [Hsr [Hsv Hsf]]]]; auto.
+        { now apply local_ok_upd_pathsep. }
+        { apply (tree_ok_same_forks c); auto. destruct (tree_ok_inv c Hct) as [? [? [? _]]]. assumption. }
+        destruct (IH st (upd_pathsep (split_node n0 (r0 :: rest') (upd_pathsep c (r0 :: rest')) (length (b :: p) =? length cm)) (b :: p))
+                    p2 e m Hlen2) as [nn' [Hadd [Hnt [Hnl [Hnr Hnd]]]]]; auto.
+        { apply (tree_ok_same_forks _ _ Hst); [reflexivity|]. destruct (tree_ok_inv _ Hst) as [? [? [? _]]]. assumption. }
+        { destruct Hsl as [S1 [S2 [S3 [S4 S5]]]]. unfold local_pre.
+          rewrite upd_pathsep_value, upd_pathsep_withmeta.
+          split; [exact S1 | split; [exact S2 | split; [exact S3 | split; [exact S4 | exact S5]]]]. }
+        { left. rewrite <- Hrbs0. exact Hsr. }
+        rewrite Hadd. eexists. split; [reflexivity|]. split; [|split; [|split]].
+        -- now apply tree_ok_edge_put.
+        -- subst n0. now apply local_ok_edge_put.
+        -- subst n0. apply rbs_edge_put.
+        -- intros q. rewrite (den_edge_put n0 fs b cm nn' Hfs0 Hcmne).
+           destruct q as [|y q']; [cbn [list_eqb_N]; rewrite den_nil; exact Hval0|].
+           destruct (N.eqb y b) eqn:Ey.
+           ++ apply N.eqb_eq in Ey. subst y.
+              (* the old tree below b *)
+              assert (Hdn : forall q2, den n (b :: q2) =
+                        if is_prefix cm (b :: q2) && is_prefix (r0 :: rest') (skipn (length cm) (b :: q2))
+                        then den c (skipn (length (r0 :: rest')) (skipn (length cm) (b :: q2))) else None).
+              { intros q2. rewrite den_cons. unfold forks_get. rewrite Hfs, Hg.
+                rewrite Hpre_eq at 1. rewrite is_prefix_app_l.
+                destruct (is_prefix cm (b :: q2) && is_prefix (r0 :: rest') (skipn (length cm) (b :: q2))); [|reflexivity].
+                rewrite skipn_skipn. f_equal. f_equal.
+                apply (f_equal (@length N)) in Hpre_eq. rewrite app_length in Hpre_eq. simpl in Hpre_eq |- *. lia. }
+              (* p2 does not continue along the old prefix *)
+              assert (Hp2r : is_prefix (r0 :: rest') p2 = false).
+              { destruct p2 as [|v rv]; [reflexivity|]. cbn [is_prefix].
+                assert (r0 <> v) by (eapply Hmax; reflexivity).
+                destruct (N.eqb r0 v) eqn:E; [apply N.eqb_eq in E; contradiction | reflexivity]. }
+              assert (Hold : den n (b :: p) = None).
+              { rewrite Hdn. rewrite <- Hp2. rewrite Hp2r. now rewrite andb_false_r. }
+              assert (Hsp_p2 : old_md (upd_pathsep (split_node n0 (r0 :: rest') (upd_pathsep c (r0 :: rest')) (length (b :: p) =? length cm)) (b :: p)) p2 = []).
+              { unfold old_md. rewrite den_upd_pathsep. rewrite (den_split _ _ _ _ r0 rest' eq_refl).
+                destruct p2 as [|v rv].
+                - rewrite Hsv. destruct (length (b :: p) =? length cm); reflexivity.
+                - assert (r0 <> v) by (eapply Hmax; reflexivity).
+                  destruct (N.eqb v r0) eqn:E; [apply N.eqb_eq in E; congruence | reflexivity]. }
+              destruct (is_prefix cm (b :: q')) eqn:Hq.
+              ** rewrite Hnd. rewrite Hp2. rewrite (list_eqb_N_skipn cm (b :: q') (b :: p) Hq Hcm2).
+                 destruct (list_eqb_N (b :: q') (b :: p)) eqn:Heq.
+                 --- f_equal. f_equal. unfold new_md. destruct m; [|reflexivity]. rewrite <- Hp2, Hsp_p2.
+                     unfold old_md. now rewrite Hold.
+                 --- rewrite den_upd_pathsep. rewrite (den_split _ _ _ _ r0 rest' eq_refl).
+                     rewrite Hdn, Hq. cbn [andb].
+                     destruct (skipn (length cm) (b :: q')) as [|v rv] eqn:Hq2.
+                     +++ rewrite Hsv. cbn [is_prefix].
+                         destruct (length (b :: p) =? length cm) eqn:Hfl; [|reflexivity].
+                         exfalso. specialize (Hfull eq_refl).
+                         assert (b :: q' = b :: p).
+                         { apply (skipn_eq_iff cm _ _ Hq Hcm2). rewrite Hq2, <- Hp2. now rewrite Hfull. }
+                         rewrite H in Heq. rewrite list_eqb_N_refl in Heq. discriminate.
+                     +++ cbn [is_prefix]. rewrite (N.eqb_sym r0 v).
+                         destruct (N.eqb v r0) eqn:Ev; [|reflexivity].
+                         cbn [andb]. destruct (is_prefix rest' rv); [|reflexivity].
+                         apply den_upd_pathsep.
+              ** rewrite (not_prefix_neq cm _ _ Hq Hcm2). rewrite Hdn, Hq. reflexivity.
+           ++ rewrite (list_eqb_N_hd_neq _ _ _ _ Ey). apply Hden0.
+    + (* no fork for b *)
+      assert (Hnone : forall q2, den n (b :: q2) = None).
+      { intros q2. rewrite den_cons. unfold forks_get. now rewrite Hfs, Hg. }
+      destruct (fresh_child_props n0 Hkey0) as [Fc1 [Fc2 [Fc3 [Fc4 [Fc5 [Fc6 Fc7]]]]]].
+      assert (Hfv : is_value (n_ty (fresh_child n0)) = false) by (rewrite Fc3; reflexivity).
+      destruct (30 <? length (b :: p)) eqn:H30.
+      * (* prefix size limit *)
+        apply Nat.ltb_lt in H30.
+        assert (Hl3 : length (skipn 30 (b :: p)) < f) by (rewrite skipn_length; simpl in *; lia).
+        assert (A1 : tree_ok (fresh_child n0)) by now apply tree_ok_no_forks.
+        assert (A2 : local_pre (fresh_child n0) (skipn 30 (b :: p))).
+        { unfold local_pre. rewrite Fc3, Fc4, Fc5.
+          split; [exact Fc7 | split; [intros _ H; discriminate H | split; [reflexivity | split; [|apply md_ok_nil]]]].
+          split; [intros H; discriminate H | intros H; contradiction]. }
+        assert (A3 : n_rbs (fresh_child n0) = 32 \/ n_rbs (fresh_child n0) = 0) by (left; now rewrite Fc6).
+        assert (A4 : Forall is_byte (skipn 30 (b :: p))) by now apply Forall_skipn.
+        destruct (IH st _ _ e m Hl3 A1 A2 A3 A4 He Hm) as [nn1 [Hadd [Hnt [Hnl [Hnr Hnd]]]]].
+        rewrite Hadd.
+        assert (HF : firstn 30 (b :: p) = b :: firstn 29 p) by reflexivity.
+        assert (HFl : length (firstn 30 (b :: p)) = 30) by (rewrite firstn_length; lia).
+        assert (HFp : is_prefix (firstn 30 (b :: p)) (b :: p) = true).
+        { rewrite <- (firstn_skipn 30 (b :: p)) at 2. apply is_prefix_app. }
+        assert (Hfk : fork_ok b (firstn 30 (b :: p))).
+        { split; [rewrite HF; discriminate|]. split; [rewrite HF; reflexivity|]. split; [lia|].
+          split; [inversion Hby; assumption | now apply Forall_firstn]. }
+        eexists. split; [reflexivity|]. split; [|split; [|split]].
+        -- apply tree_ok_edge_put; auto. { now apply local_ok_upd_pathsep. }
+           apply (tree_ok_same_forks nn1); auto. destruct (tree_ok_inv nn1 Hnt) as [? [? [? _]]]. assumption.
+        -- subst n0. now apply local_ok_edge_put.
+        -- subst n0. apply rbs_edge_put.
+        -- intros q. rewrite (den_edge_put n0 fs b _ _ Hfs0); [|rewrite HF; discriminate].
+           destruct q as [|y q']; [cbn [list_eqb_N]; rewrite den_nil; exact Hval0|].
+           destruct (N.eqb y b) eqn:Ey.
+           ++ apply N.eqb_eq in Ey. subst y. rewrite Hnone.
+              destruct (is_prefix (firstn 30 (b :: p)) (b :: q')) eqn:Hq.
+              ** rewrite den_upd_pathsep, Hnd. rewrite HFl.
+                 rewrite <- HFl at 1 2. rewrite (list_eqb_N_skipn _ _ _ Hq HFp).
+                 destruct (list_eqb_N (b :: q') (b :: p)).
+                 --- f_equal. f_equal. unfold new_md. destruct m; [|reflexivity]. unfold old_md.
+                     rewrite Hnone. now rewrite (den_none_no_forks _ Fc1 Hfv).
+                 --- apply (den_none_no_forks _ Fc1 Hfv).
+              ** now rewrite (not_prefix_neq _ _ _ Hq HFp).
+           ++ rewrite (list_eqb_N_hd_neq _ _ _ _ Ey). apply Hden0.
+      * (* a new leaf *)
+        apply Nat.ltb_ge in H30.
+        destruct (leaf_node_props n0 (b :: p) e m Hkey0 He Hm) as [Lt [Ll [Lr [Lv Lf]]]].
+        assert (Hfk : fork_ok b (b :: p)).
+        { split; [discriminate|]. split; [reflexivity|]. split; [exact H30|]. split; [inversion Hby; assumption | exact Hby]. }
+        eexists. split; [reflexivity|]. split; [|split; [|split]].
+        -- apply tree_ok_edge_put; auto. now rewrite Lr.
+        -- subst n0. now apply local_ok_edge_put.
+        -- subst n0. apply rbs_edge_put.
+        -- intros q. rewrite (den_edge_put n0 fs b _ _ Hfs0); [|discriminate].
+           destruct q as [|y q']; [cbn [list_eqb_N]; rewrite den_nil; exact Hval0|].
+           destruct (N.eqb y b) eqn:Ey.
+           ++ apply N.eqb_eq in Ey. subst y. rewrite Hnone.
+              destruct (is_prefix (b :: p) (b :: q')) eqn:Hq.
+              ** destruct (list_eqb_N (b :: q') (b :: p)) eqn:Heq.
+                 --- apply list_eqb_N_eq in Heq. rewrite Heq. rewrite skipn_all. rewrite den_nil, Lv.
+                     f_equal. f_equal. unfold new_md. destruct m; [|reflexivity]. unfold old_md. now rewrite Hnone.
+                 --- destruct (skipn (length (b :: p)) (b :: q')) as [|v rv] eqn:Hsk; [|now apply den_no_forks].
+                     exfalso. apply is_prefix_spec in Hq. rewrite Hsk, app_nil_r in Hq.
+                     rewrite Hq, list_eqb_N_refl in Heq. discriminate.
+              ** now rewrite (not_prefix_neq _ _ _ Hq (is_prefix_refl _)).
+           ++ rewrite (list_eqb_N_hd_neq _ _ _ _ Ey). apply Hden0.
+Qed.
+
+(** ---- Remove ---- *)
+Lemma put_fork_same : forall n fs b v, n_forks n = Some fs -> keys_sorted fs -> fget fs b = Some v -> put_fork n b v = n.
+Proof.
+  intros n fs b v Hfs Hs Hg. unfold put_fork. rewrite Hfs. rewrite (fset_same fs b v Hs Hg).
+  destruct n; simpl in *; subst; reflexivity.
+Qed.
+
+Lemma remove_spec : forall f st n p, length p < f -> tree_ok n ->
+  exists n' er, remove f st n p = (n', er) /\ tree_ok n' /\
+    n_ty n' = n_ty n /\ n_rbs n' = n_rbs n /\ n_okey n' = n_okey n /\ n_entry n' = n_entry n /\ n_md n' = n_md n /\
+    (er <> None -> n' = n) /\
+    (p <> [] -> (forall q, proper_prefix p q -> den n q = None) ->
+       forall q, den n' q = if list_eqb_N q p then None else den n q).
+Proof.
+  induction f as [|f IH]; intros st n p Hlen Hok; [lia|].
+  destruct (tree_ok_inv n Hok) as [fs [Hfs [Href [Hs Hall]]]].
+  cbn [remove]. destruct p as [|b p].
+  - exists n, (Some EEmptyPath). repeat split; auto. intros H; contradiction.
+  - unfold load_if_nil. rewrite Hfs. unfold forks_get. rewrite Hfs.
+    destruct (fget fs b) as [[prefix c]|] eqn:Hg.
+    + destruct (Hall b prefix c Hg) as [[Hne [Hhd [Hl30 [Hb Hpb]]]] [Hcr [Hcl Hct]]].
+      destruct prefix as [|x pre]; [contradiction|]. simpl in Hhd. subst x.
+      assert (Hdn : forall q2, den n (b :: q2) =
+                 if is_prefix (b :: pre) (b :: q2) then den c (skipn (length (b :: pre)) (b :: q2)) else None).
+      { intros q2. rewrite den_cons. unfold forks_get. rewrite Hfs, Hg. reflexivity. }
+      destruct (is_prefix (b :: pre) (b :: p)) eqn:Hpp.
+      * destruct (skipn (length (b :: pre)) (b :: p)) as [|r rest] eqn:Hrest.
+        -- (* the whole path is the prefix: the fork is deleted *)
+           assert (Hpe : b :: p = b :: pre).
+           { apply is_prefix_spec in Hpp. rewrite Hrest, app_nil_r in Hpp. exact Hpp. }
+           exists (set_forks n (Some (fdel fs b))), None. split; [reflexivity|]. split; [|repeat split; auto].
+           ++ apply (tree_ok_intro _ (fdel fs b)); [reflexivity | exact Href | now apply fdel_sorted |].
+              intros k pre' c' Hin. apply (Hall k pre' c'). apply In_fget; [assumption|]. eapply fdel_In; eassumption.
+           ++ intros H; contradiction.
+           ++ intros _ Hx q. destruct q as [|y q']; [reflexivity|].
+              rewrite den_cons. unfold forks_get. cbn [n_forks set_forks]. rewrite fget_fdel by assumption.
+              destruct (N.eqb y b) eqn:Ey.
+              ** apply N.eqb_eq in Ey. subst y.
+                 destruct (list_eqb_N (b :: q') (b :: p)) eqn:Heq; [reflexivity|].
+                 destruct (is_prefix (b :: pre) (b :: q')) eqn:Hq; [|rewrite Hdn, Hq; reflexivity].
+                 symmetry. apply Hx. split; [rewrite Hpe; exact Hq|].
+                 apply is_prefix_spec in Hq. rewrite Hpe.
+                 destruct (skipn (length (b :: pre)) (b :: q')) as [|v rv] eqn:Hsk.
+                 --- exfalso. rewrite app_nil_r in Hq. rewrite Hq, Hpe, list_eqb_N_refl in Heq. discriminate.
+                 --- rewrite Hq, app_length. simpl. lia.
+              ** rewrite (list_eqb_N_hd_neq _ _ _ _ Ey). rewrite den_cons. unfold forks_get. now rewrite Hfs.
+        -- (* descend *)
+           assert (Hl2 : length (r :: rest) < f).
+           { rewrite <- Hrest, skipn_length. simpl in *. lia. }
+           destruct (IH st c (r :: rest) Hl2 Hct) as [c' [er [Hrm [Hc't [T1 [T2 [T3 [T4 [T5 [Herr Hcd]]]]]]]]]].
+           rewrite Hrm. exists (put_fork n b (b :: pre, c')), er. split; [reflexivity|].
+           assert (Hpf : forall x, n_forks n = Some fs -> put_fork n b x = set_forks n (Some (fset fs b x))).
+           { intros x H. unfold put_fork. now rewrite H. }
+           split; [|split; [|split; [|split; [|split; [|split; [|split]]]]]]; try (rewrite Hpf by assumption; reflexivity).
+           ++ apply tree_ok_put_fork; auto.
+              ** repeat split; auto.
+              ** congruence.
+              ** apply (local_ok_same c); auto; congruence.
+           ++ intros He. apply Herr in He. subst c'. now apply (put_fork_same n fs).
+           ++ intros _ Hx q.
+              assert (Hx' : forall q2, proper_prefix (r :: rest) q2 -> den c q2 = None).
+              { intros q2 [Hq2 Hql]. specialize (Hx ((b :: pre) ++ q2)).
+                change ((b :: pre) ++ q2) with (b :: (pre ++ q2)) in Hx. rewrite Hdn in Hx.
+                change (b :: (pre ++ q2)) with ((b :: pre) ++ q2) in Hx.
+                rewrite is_prefix_app, skipn_app_exact in Hx. apply Hx. split.
+                - apply is_prefix_spec in Hpp. rewrite Hpp, Hrest. rewrite is_prefix_app_l, is_prefix_app, skipn_app_exact. exact Hq2.
+                - apply is_prefix_spec in Hpp. rewrite Hpp, Hrest, !app_length. lia. }
+              specialize (Hcd ltac:(discriminate) Hx').
+              destruct q as [|y q'].
+              ** rewrite !den_nil. unfold val_of. rewrite Hpf by assumption. reflexivity.
+              ** rewrite den_cons. rewrite forks_get_put_fork by congruence.
+                 destruct (N.eqb y b) eqn:Ey.
+                 --- apply N.eqb_eq in Ey. subst y. rewrite Hdn.
+                     destruct (is_prefix (b :: pre) (b :: q')) eqn:Hq.
+                     +++ change (S (length pre)) with (length (b :: pre)). rewrite Hcd. rewrite <- Hrest.
+                         now rewrite (list_eqb_N_skipn (b :: pre) (b :: q') (b :: p) Hq Hpp).
+                     +++ now rewrite (not_prefix_neq _ _ _ Hq Hpp).
+                 --- rewrite (list_eqb_N_hd_neq _ _ _ _ Ey). rewrite den_cons. reflexivity.
+      * exists n, (Some ENotFound). repeat split; auto. intros _ _ q.
+        destruct (list_eqb_N q (b :: p)) eqn:Heq; [|reflexivity].
+        apply list_eqb_N_eq in Heq. subst q. rewrite Hdn, Hpp. reflexivity.
+    + exists n, (Some ENotFound). repeat split; auto. intros _ _ q.
+      destruct (list_eqb_N q (b :: p)) eqn:Heq; [|reflexivity].
+      apply list_eqb_N_eq in Heq. subst q. rewrite den_cons. unfold forks_get. now rewrite Hfs, Hg.
+Qed.
+
+(** ---- HasPrefix on a never-saved tree ---- *)
+Fixpoint hp (f : nat) (n : node) (p : path) : bool :=
+  match p with
+  | [] => true
+  | b :: _ =>
+      match f with
+      | O => false
+      | S f' =>
+          match forks_get n b with
+          | Some (x :: pre, c) =>
+              if is_prefix (x :: pre) p then hp f' c (skipn (S (length pre)) p) else is_prefix p (x :: pre)
+          | _ => false
+          end
+      end
+  end.
+
+Lemma has_prefix_pure : forall f st n p, tree_ok n -> length p < f ->
+  has_prefix f st n p = (n, Ok (hp (length p) n p)).
+Proof.
+  induction f as [|f IH]; intros st n p Hok Hlen; [lia|].
+  destruct (tree_ok_inv n Hok) as [fs [Hfs [Href [Hs Hall]]]].
+  cbn [has_prefix]. unfold load_if_nil. rewrite Hfs.
+  destruct p as [|b p]; [reflexivity|].
+  cbn [length hp]. unfold forks_get at 1 2. rewrite Hfs.
+  destruct (fget fs b) as [[pre c]|] eqn:Hg; [|reflexivity].
+  destruct (Hall b pre c Hg) as [[Hne [Hhd [Hl30 [Hb Hby]]]] [Hrbs [Hloc Hc]]].
+  rewrite common_full_iff.
+  destruct pre as [|x pre]; [contradiction|].
+  destruct (is_prefix (x :: pre) (b :: p)) eqn:Hp; [|reflexivity].
+  assert (Hcm : common (x :: pre) (b :: p) = x :: pre).
+  { pose proof (common_full_iff (x :: pre) (b :: p)) as Hc'. rewrite Hp in Hc'. apply Nat.eqb_eq in Hc'.
+    pose proof (common_prefix_l (x :: pre) (b :: p)) as Hl. rewrite Hc' in Hl. rewrite skipn_all in Hl.
+    now rewrite app_nil_r in Hl. }
+  rewrite Hcm. simpl in Hlen.
+  rewrite IH; [| assumption | cbn [length]; rewrite skipn_length; simpl; lia].
+  unfold put_fork. rewrite Hfs. rewrite (fset_same fs b (x :: pre, c) Hs Hg).
+  assert (Hfu : forall f1 f2 n p, length p <= f1 -> length p <= f2 -> hp f1 n p = hp f2 n p).
+  { clear. induction f1 as [|f1 IH]; intros f2 n p H1 H2.
+    - destruct p; [destruct f2; reflexivity | simpl in H1; lia].
+    - destruct p as [|b p]; [destruct f2; reflexivity|]. destruct f2 as [|f2]; [simpl in H2; lia|].
+      simpl. destruct (forks_get n b) as [[[|x pre] c]|]; try reflexivity.
+      destruct (N.eqb x b && is_prefix pre p); [|reflexivity].
+      simpl in H1, H2. apply IH; rewrite skipn_length; lia. }
+  rewrite (Hfu (length (skipn (length (x :: pre)) (b :: p))) (length p));
+    [| lia | cbn [length]; rewrite skipn_length; simpl; lia].
+  destruct n; simpl in *; subst; reflexivity.
 Qed.
